@@ -43,12 +43,13 @@
   Inflections: 0 `-o` "º", 1 `-a` "ª", 2 `-i` "º", 3 `-e` "ª". Not spelled: rank 2 masculine plural
   (`secondi` is the time unit: deliberate exclusion in the tests).
 
-  Known divergences of the library on spellings kept here (findings, not removed):
-    * `…centottantuno`, `…centottantotto` (181, 188, 281, …: standard elided forms) are rejected (NaN),
-      also inside ordinals (`centottantunesimo`); `centottantadue` etc. are accepted.
-    * `centunesimo/a/i/e` (and `millecentunesimo` …) is rejected (NaN); `centounesimo` is accepted.
+  No divergence of the library is known on the spellings kept here. Three findings of an earlier tree have
+  been repaired in the library; the model accepts these spellings now (`#eval text2digitsWords It.lang [w!"…"]`):
+    * `…centottantuno`, `…centottantotto` (181, 188, 281, …: standard elided forms) ↦ `181`, `188`, `281`, …,
+      also inside ordinals (`centottantunesimo` ↦ `181º`), like `centottantadue` etc.
+    * `centunesimo/a/i/e` (and `millecentunesimo` …) ↦ `101º`, `101ª`, … (`1101º`), like `centounesimo`.
     * `…decimo` in a compound (`centodecimo`, `milledecimo`, rank ≡ 10 mod 100 above ten) is converted
-      without the ordinal marker (`110` instead of `110º`).
+      with the ordinal marker (`110º`, `1010º`).
 
   Fractions: after `virgola` every leading zero is said `zero`, the remaining digits are read as one cardinal
   (with its own variant choices: choice points shifted by 64).
